@@ -20,7 +20,6 @@ NOT_APPLICABLE = {
     "C31": "index/parent/child/coordinate round-trips over generated grids: integer-array arithmetic on run-time shapes, no finite static abstraction in reach",
     "C34": "exactness of Lanczos/SLQ/ELBO estimators in the limit: numerical",
     "C35": "responses compute line integrals / Fourier sums / interpolation: numerical",
-    "C36": "reported chi-square statistics equal documented formulas; the two implementations differ by design, so not even a sibling comparison applies",
 }
 
 
